@@ -521,6 +521,14 @@ class AbsExec:
             return out + self.take_pending()
         if k in ("NullStmt",):
             return [Outcome("fall", st)]
+        if k in ("CallExpr", "CXXMemberCallExpr") and self.by_id.get(n.get("calleeId")) is not None:
+            # a helper called for its effect (e.g. a range check moved into its own function): its throwing
+            # outcomes end the caller, its returns fall through
+            self.pending = []
+            out = []
+            for o in self.call(n, st, depth):
+                out.append(Outcome("fall", o.st) if o.kind == "return" else o)
+            return out + self.take_pending()
         if k in ("ParenExpr", "CStyleCastExpr", "CXXStaticCastExpr") and n.get("mo") == "assert":
             return [Outcome("fall", st)]
         raise AnalysisBroken("statement kind %s at %s in %s" % (k, short_loc(n.get("l")), f.full))
